@@ -256,6 +256,7 @@ def main(argv=None):
     replay_dir = os.path.join(OUT, "replay", pid)
     groups = {}
     replays_done = {}
+    pid_clause_names = {_base(r["name"]) for r in results}
     for r in refuted:
         groups.setdefault((r["unit"], json.dumps(r["cfg"], sort_keys=True), _base(r["name"])), []).append(r)
     for (unit, cfgs, base), rs in sorted(groups.items()):
@@ -277,16 +278,25 @@ def main(argv=None):
             rep = native_replay(unit, r["cfg"], model)
         confirmed = False
         observed = None
+        via = None
         if "runs" in rep:
             for run in rep["runs"]:
                 for nm, ok, detail in run["clauses"]:
                     if ok is False and (nm == base or (r["kind"] == "exception" and nm.split("/")[-1].startswith("no_exception"))):
-                        confirmed, observed = True, detail
+                        confirmed, observed, via = True, detail, nm
+            if not confirmed:
+                # the refuted clause itself cannot be evaluated on the compiled code (it talks about a contract stub or a
+                # symbolic-only observation), but the SAME counterexample input makes another clause of this property
+                # fail on the real code: that is a failing input for the property
+                for run in rep["runs"]:
+                    for nm, ok, detail in run["clauses"]:
+                        if ok is False and not confirmed and nm in pid_clause_names and nm not in known_names:
+                            confirmed, observed, via = True, detail, nm
         os.makedirs(replay_dir, exist_ok=True)
         fn = os.path.join(replay_dir, hashlib.sha1(base.encode()).hexdigest()[:12] + ".json")
         json.dump(dict(property=pid, obligation=base, all_paths=[x["name"] for x in rs], unit=unit, cfg=r["cfg"],
                        verdict="refuted", backend=r["backend"], solver_output=r["detail"], goal=r["goal"], model=model,
-                       native_replay=rep, native_confirms=confirmed, observed=observed,
+                       native_replay=rep, native_confirms=confirmed, observed=observed, failing_clause_on_real_code=via,
                        replay_cmd=f"./check {pid} --replay {os.path.relpath(fn, ROOT)}"), open(fn, "w"), indent=1)
         violations.append((base, fn, confirmed))
 
@@ -402,6 +412,7 @@ def main(argv=None):
         print(f"ERROR {r['name']}: {r['detail'][:1200]}")
     for r in unknown[:20]:
         print(f"UNDECIDED {r['name']}: {r['detail'][:300]}")
+    violations.sort(key=lambda v: not v[2])  # those with a failing input on the real code first
     if len(violations) > 25:
         print(f"({len(violations)} refuted obligations; the first 25 are listed, all have replay files under {os.path.relpath(replay_dir, ROOT)})")
     for base, fn, confirmed in violations[:25]:
@@ -451,7 +462,7 @@ def replay_file(path):
     print(json.dumps(rep, indent=1)[:6000])
     base = data["obligation"]
     bad = [c for run in rep.get("runs", []) for c in run["clauses"] if c[1] is False]
-    hit = [c for c in bad if c[0] == base or c[0].split("/")[-1].startswith("no_exception")]
+    hit = [c for c in bad if c[0] in (base, data.get("failing_clause_on_real_code")) or c[0].split("/")[-1].startswith("no_exception")]
     if hit:
         print(f"VIOLATION property={data['property']} replay={path}")
         return 1
